@@ -22,15 +22,18 @@ package searcher
 //@ spec conjAhead(s *ConjunctionSearcher) bool = forall(k, 0, len(s.searchers), implies(s.started && s.currs[k] != nil, dmKey(s.currs[k]) > s.last))
 //@ spec conjInv(s *ConjunctionSearcher) bool = conjShape(s) && implies(!s.initialized, conjFresh(s) && !s.started) && implies(s.initialized, forall(k, 0, len(s.searchers), slotOK(s, k)) && conjAhead(s))
 
+// the pool's free list and the currs array are different arrays (both hold *DocumentMatch)
+//@ spec poolApart(ctx *search.SearchContext, s *ConjunctionSearcher) bool = ctx != nil && ctx.DocumentMatchPool != nil && (cap(s.currs) == 0 || base(ctx.DocumentMatchPool.avail) != base(s.currs))
+
 // advanceChild(i, ID): child i is moved to its first match at or after ID; the other slots are
 // untouched. The target must be beyond the child's cursor.
 //@ func ConjunctionSearcher.advanceChild
 //@   props C08
 //@   mode int
-//@   requires s != nil && ctx != nil && ctx.DocumentMatchPool != nil && conjShape(s) && 0 <= i && i < len(s.searchers) && forall(k, 0, len(s.searchers), slotOK(s, k))
+//@   requires s != nil && poolApart(ctx, s) && conjShape(s) && 0 <= i && i < len(s.searchers) && forall(k, 0, len(s.searchers), slotOK(s, k))
 //@   requires implies(s.currs[i] != nil, dmKey(s.currs[i]) < idKey(ID))
 //@   modifies s.currs[*], fields(search.DocumentMatch), search.DocumentMatch.cowner, search.DocumentMatchPool.avail, mem(*search.DocumentMatch), s.searchers[i].started, s.searchers[i].last, s.searchers[i].done
 //@   at call s.searchers[i].Advance#0 after: ghost result0.cowner = recv
-//@   ensures conjShape(s) && s.currs == old(s.currs) && s.searchers == old(s.searchers) && forall(k, 0, len(s.searchers), implies(k != i, s.currs[k] == old(s.currs[k])))
+//@   ensures poolApart(ctx, s) && conjShape(s) && s.currs == old(s.currs) && s.searchers == old(s.searchers) && forall(k, 0, len(s.searchers), implies(k != i, s.currs[k] == old(s.currs[k])))
 //@   ensures implies(err == nil, forall(k, 0, len(s.searchers), slotOK(s, k)) && implies(s.currs[i] != nil, dmKey(s.currs[i]) >= idKey(ID)))
 //@   ensures forall(k, 0, len(s.searchers), implies(k != i && s.currs[k] != nil, dmKey(s.currs[k]) == old(dmKey(s.currs[k]))))
